@@ -250,6 +250,24 @@ func runC14(r *mon.Run) {
 			if s3, err := sk.Sign(&fixedReader{data: aux, chunk: 1 + rng.Intn(9)}, msg, nil); err != nil || !bytes.Equal(s3, want) {
 				w.Fail("c14/Sign:reader-chunks", "a chunked reader delivering the same 32 bytes gives a different signature", det...)
 			}
+			if s3, err := sk.Sign(&fixedReader{data: aux, chunk: gen.Pick(rng, 0, 7), stalls: gen.Pick(rng, 2, 100, 101, 400)}, msg, nil); err != nil || !bytes.Equal(s3, want) {
+				w.Fail("c14/Sign:reader-stalls", "a reader that answers (0, nil) many times before delivering the same 32 bytes gives a different signature", det...)
+			}
+			if i%8 == 1 {
+				w.Class("c14:reader:async-fill+stack-move")
+				if s3, err := sk.Sign(&fixedReader{data: aux, async: true}, msg, nil); err != nil || !bytes.Equal(s3, want) {
+					w.Fail("c14/Sign:reader-async", fmt.Sprintf("a reader whose bytes are written by another goroutine while the signer's stack moves gives %x (err %v)", s3, err), det...)
+				}
+				// a key object that nobody references after the call, and a collection (with
+				// finalizers) in the middle of it
+				one, err1 := bitcoin.NewSchnorrPrivateKey(b32(d))
+				if err1 == nil {
+					s4, err := one.Sign(&fixedReader{data: aux, onRead: func() { runtime.GC(); runtime.GC(); runtime.Gosched() }}, msg, nil)
+					if err != nil || !bytes.Equal(s4, want) {
+						w.Fail("c14/Sign:one-shot-key+gc", fmt.Sprintf("Sign with a key object that is not used afterwards, a garbage collection running during the entropy read: %x (err %v)", s4, err), det...)
+					}
+				}
+			}
 		case 2:
 			// nil reader: system randomness; must still verify
 			if s3, err := sk.Sign(nil, msg, nil); err != nil || !oracle.BIP340Verify(b32(P.X), msg, s3) {
